@@ -36,8 +36,13 @@ def main():
     demo = os.path.join(sd, "demo.py")
     rc, out = sh(f"/venv/bin/python {demo}", cwd=wt, env=env)
     res["demo_clean_rc"] = rc
-    rc, out = sh(f"git apply --3way {os.path.join(sd, 'patch.diff')} 2>&1 || "
-                 f"git apply {os.path.join(sd, 'patch.diff')}", cwd=wt)
+    pf = os.path.join(sd, "patch.diff")
+    rc, out = sh(f"git apply {pf}", cwd=wt)
+    if rc != 0:
+        sh("git checkout -q -- . ; git reset -q --hard", cwd=wt)
+        rc, out = sh(f"patch -p1 -F3 --no-backup-if-mismatch < {pf}", cwd=wt)
+        res["applied_with_fuzz"] = True
+        sh("find . -name '*.orig' -delete -o -name '*.rej' -delete", cwd=wt)
     res["apply_rc"] = rc
     if rc != 0:
         res["apply_out"] = out[-500:]
